@@ -100,9 +100,15 @@ func (m singleModel) Initialise() (error, TimeSteppingModel, data.ND3Float64, da
 
 		if inputs == nil {
 			inputs = data.NewArray3DFloat64(1, len(desc.Inputs), len(thisInput))
+		} else if len(thisInput) != inputs.Len3() {
+			return errors.New(fmt.Sprintf("Input %s has %d values, expected %d", p, len(thisInput), inputs.Len3())), nil, nil, nil, warnings
 		}
 
 		inputs.Apply([]int{0, i, 0}, 2, 1, thisInput)
+	}
+
+	if inputs == nil {
+		return errors.New("No inputs provided"), nil, nil, nil, warnings
 	}
 
 	return nil, model, inputs, states, warnings
@@ -186,7 +192,7 @@ func encodeResults(w io.Writer, runLogs []string, results RunResults,
 
 	if results.States != nil {
 		stateArray := results.States.MustReshape(results.States.Shape()[1:])
-		if splitOutputs {
+		if splitOutputs && stateArray.Len(0) == len(description.States) {
 			stateMap := make(map[string]interface{})
 			for i, state := range description.States {
 				singleState := stateArray.Get([]int{i})
